@@ -1,0 +1,23 @@
+//go:build verif
+
+package tree
+
+import "strings"
+
+// VerifYield is called at the yield points of the validation / lazy loading code when the package is built
+// with the tag verif. A deterministic simulator parks the calling goroutine there and decides who runs next.
+var VerifYield func(point string)
+
+func verifYield(point string) {
+	if f := VerifYield; f != nil {
+		f(point)
+	}
+}
+
+// verifYieldAt is verifYield with the path of the entry the caller works on appended to the point name, so that
+// goroutines spawned per entry get a name that does not depend on the order in which they were started.
+func verifYieldAt(point string, e Entry) {
+	if f := VerifYield; f != nil {
+		f(point + ":/" + strings.Join(e.Path(), "/"))
+	}
+}
